@@ -186,16 +186,18 @@ Definition algorithm_identifier (data : bytes) : result (list N * bytes * bytes)
   let* p := raw_optional (snd o) in
   Ok (fst o, fst p, snd s).
 
-(* BitString field: parseBitString (asn1.go:166), the octets after the padding count *)
-Definition bitstring_field (data : bytes) : result (bytes * bytes) :=
-  let* x := req (field false 3 false data) in
-  match fst x with
+(* parseBitString (asn1.go:166) on the content octets: the octets after the padding count *)
+Definition bitstring_ok (c : bytes) : result bytes :=
+  match c with
   | [] => Err "zero length BIT STRING"
   | pad :: body =>
       if (7 <? pad) || (is_nil body && (0 <? pad)) || negb (last (pad :: body) 0 mod 2 ^ pad =? 0)
       then Err "invalid padding bits in BIT STRING"
-      else Ok (body, snd x)
+      else Ok body
   end.
+Definition bitstring_field (data : bytes) : result (bytes * bytes) :=
+  let* x := req (field false 3 false data) in
+  let* b := bitstring_ok (fst x) in Ok (b, snd x).
 
 Definition opt_of {A} (r : result A) : option A := match r with Ok a => Some a | _ => None end.
 
@@ -219,25 +221,131 @@ Definition pkcs8_fields (der : bytes) : result (list N * bytes * bytes) :=
   let* k := req (field false 4 false (snd a)) in
   Ok (fst (fst a), snd (fst a), fst k).
 
+(* ---------- EC parameters and SEC1 (asn1struct/elliptic.go) ---------- *)
+(* RawValue without `optional`: any one element, FullBytes *)
+Definition raw_required (data : bytes) : result (bytes * bytes) :=
+  match data with
+  | [] => Err "sequence truncated"
+  | _ => raw_optional data
+  end.
+Definition octets (data : bytes) : result (bytes * bytes) := req (field false 4 false data).
+Definition oid_ok (c : bytes) : result (list N) :=
+  match dec_oid_legacy c with Some a => Ok a | None => Err "bad object identifier" end.
+
+(* ECParameters { Version int; FieldId { FieldType OID; Parameters RawValue }; Curve { A, B FieldElement;
+   Seed BitString optional }; Base FieldElement; Order *big.Int; Cofactor int optional; Hash OID optional }
+   from the content of its SEQUENCE: (FieldType arcs, FieldId.Parameters.FullBytes) *)
+Definition ec_parameters_struct (c : bytes) : result (list N * bytes) :=
+  let* v := int_field c in
+  let* fid := seq (snd v) in
+  let* ft := oid_field (fst fid) in
+  let* pr := raw_required (snd ft) in
+  let* cv := seq (snd fid) in
+  let* a := octets (fst cv) in
+  let* b := octets (snd a) in
+  let* sd := field true 3 false (snd b) in
+  let* _ := match fst sd with Some x => let* _ := bitstring_ok x in Ok tt | None => Ok tt end in
+  let* base := octets (snd cv) in
+  let* order := bigint (snd base) in
+  let* cof := field true 2 false (snd order) in
+  let* _ := match fst cof with Some x => int64_ok x | None => Ok tt end in
+  let* h := field true 6 false (snd cof) in
+  let* _ := match fst h with Some x => let* _ := oid_ok x in Ok tt | None => Ok tt end in
+  Ok (fst ft, fst pr).
+
+(* keys.go ecExplicitParameterAttributes: Unmarshal(Parameters.FullBytes, &*big.Int) and
+   Unmarshal(Parameters.FullBytes, &struct{FieldSize *big.Int}) *)
+Definition prime_of (full : bytes) : option bytes := opt_of (let* p := bigint full in Ok (fst p)).
+Definition char2_of (full : bytes) : option bytes :=
+  opt_of (let* s := seq full in let* f := bigint (fst s) in Ok (fst f)).
+
+(* der.go parseECParameters: an OBJECT IDENTIFIER first, else ECParameters.  [inferred]: the answer of
+   elliptic.CurveNameFromParameters (C16's matcher), the only recorded answer left *)
+Definition ec_of_der (inferred : result bytes) (der : bytes) : result ecparams :=
+  match oid_field der with
+  | Ok (arcs, _) => Ok (EcNamed arcs)
+  | _ =>
+      match (let* s := seq der in ec_parameters_struct (fst s)) with
+      | Ok (ft, full) => Ok (EcExplicit ft (prime_of full) (char2_of full) inferred)
+      | _ => Err "asn1"
+      end
+  end.
+
+(* a field tagged `optional,explicit,tag:n` (asn1.go:716-760): the header of the wrapper; "explicit tag has no
+   child" when NOTHING follows that header in the enclosing content - tested before the tag is compared, so any
+   last element with empty content fails here; a context-specific [n] that is constructed (or empty) is entered:
+   the inner header is read and from there on the field is decoded as if untagged - the wrapper's length is
+   never compared with the inner element's; anything else leaves the field at its default *)
+Definition explicit_field (tagno univ : N) (comp : bool) (data : bytes) : result (option bytes * bytes) :=
+  match data with
+  | [] => Ok (None, [])
+  | _ =>
+      match parse_tl data with
+      | Ok (h, r) =>
+          if is_nil r then Err "explicit tag has no child"
+          else if (h_class h =? 2) && (h_tag h =? tagno) && ((h_len h =? 0) || h_comp h) then
+            if 0 <? h_len h then
+              match parse_tl r with
+              | Ok (h2, r2) =>
+                  if (h_class h2 =? 0) && (h_tag h2 =? univ) && Bool.eqb (h_comp h2) comp then
+                    match split_at_N r2 (h_len h2) with
+                    | Some (c, rest) => Ok (Some c, rest)
+                    | None => Err "data truncated"
+                    end
+                  else Ok (None, data)
+              | Err e => Err e
+              | Panic e => Panic e
+              end
+            else Err "zero length explicit tag was not an asn1.Flag"
+          else Ok (None, data)
+      | Err e => Err e
+      | Panic e => Panic e
+      end
+  end.
+
+(* ECPrivateKey { Version int; PrivateKey []byte; NamedCurveOID OID [0] explicit optional; Params ECParameters
+   [0] explicit optional; PublicKey BitString [1] explicit optional }: (NamedCurveOID, (FieldType, FullBytes)) *)
+Definition sec1_fields (der : bytes) : result (list N * (list N * bytes)) :=
+  let* s := seq der in
+  let* v := int_field (fst s) in
+  let* k := octets (snd v) in
+  let* nc := explicit_field 0 6 false (snd k) in
+  let* named := match fst nc with Some c => oid_ok c | None => Ok [] end in
+  let* ps := explicit_field 0 16 true (snd nc) in
+  let* params := match fst ps with Some c => ec_parameters_struct c | None => Ok ([], []) end in
+  let* pk := explicit_field 1 3 false (snd ps) in
+  let* _ := match fst pk with Some c => let* _ := bitstring_ok c in Ok tt | None => Ok tt end in
+  Ok (named, params).
+
 (* ---------- the describers of der.go, from the bytes ---------- *)
 Definition parse_pkcs1_public_der (der : bytes) : result info := parse_pkcs1_public (pkcs1_public_of_der der).
 Definition parse_pkcs1_private_der (der : bytes) : result info := parse_pkcs1_private (pkcs1_private_of_der der).
 Definition parse_dsa_parameters_der (der : bytes) : result info := parse_dsa_parameters (dsa_parameters_of_der der).
 Definition parse_dsa_private_der (der : bytes) : result info := parse_dsa_private (dsa_private_of_der der).
 
-(* parsePKIXPublicKey / parsePKCS8PrivateKey.  [ec]: the answer of parseECParameters on Parameters.FullBytes,
-   still recorded (explicit EC parameters and the curve matcher are C16's); it is looked at only under
-   id-ecPublicKey *)
-Definition parse_pkix_der (ec : result ecparams) (der : bytes) : result info :=
-  match pkix_fields der with
-  | Ok (alg, params, key) =>
-      with_desc "PKIX public key" (pkix_attrs alg (dsa_parameters_of_der params) (pkcs1_public_of_der key) ec)
+Definition parse_ec_parameters_der (inferred : result bytes) (der : bytes) : result info :=
+  parse_ec_parameters (ec_of_der inferred der).
+Definition parse_sec1_der (inferred : result bytes) (der : bytes) : result info :=
+  match sec1_fields der with
+  | Ok (named, (ft, full)) =>
+      with_desc "EC private key" (ec_private_attrs named ft (prime_of full) (char2_of full) inferred)
   | _ => Err "asn1"
   end.
-Definition parse_pkcs8_der (ec : result ecparams) (der : bytes) : result info :=
+
+(* parsePKIXPublicKey / parsePKCS8PrivateKey.  [inferred]: the answer of the curve matcher for explicit EC
+   parameters (see ec_of_der); it matters only under id-ecPublicKey with explicit parameters *)
+Definition parse_pkix_der (inferred : result bytes) (der : bytes) : result info :=
+  match pkix_fields der with
+  | Ok (alg, params, key) =>
+      with_desc "PKIX public key"
+        (pkix_attrs alg (dsa_parameters_of_der params) (pkcs1_public_of_der key) (ec_of_der inferred params))
+  | _ => Err "asn1"
+  end.
+Definition parse_pkcs8_der (inferred : result bytes) (der : bytes) : result info :=
   match pkcs8_fields der with
   | Ok (alg, params, key) =>
-      with_desc "PKCS#8 private key" (pkcs8_attrs alg (dsa_parameters_of_der params) (pkcs1_private_of_der key) ec)
+      with_desc "PKCS#8 private key"
+        (pkcs8_attrs alg (dsa_parameters_of_der params) (pkcs1_private_of_der key) (ec_of_der inferred params))
   | _ => Err "asn1"
   end.
 
@@ -292,3 +400,16 @@ Definition enc_pkcs8_ed25519 (seed : bytes) : bytes :=
    Go's 2^31 limit with room to spare); an exponent that fits Go's int as written by der_int_enc *)
 Definition int_wf (n : N) : bool := N.size n <=? 8388608.
 Definition exp_wf (e : N) : bool := e <? 36028797018963968.   (* 2^55: at most 7 magnitude octets *)
+
+(* ---------- writers for EC keys over a named curve ---------- *)
+(* a context-specific constructed wrapper [n] (EXPLICIT tagging) *)
+Definition ctx_enc (tagno : N) (c : bytes) : bytes := enc_hdr 2 true tagno (N.of_nat (length c)) ++ c.
+Definition oid_ec_arcs : list N := [1; 2; 840; 10045; 2; 1].
+(* RFC 5915 ECPrivateKey (version 1) with parameters [0] namedCurve and publicKey [1] *)
+Definition enc_sec1_named (curve : list N) (d pub : bytes) : bytes :=
+  enc_seq (enc_int 1 ++ enc_octets d ++ ctx_enc 0 (enc_oid curve) ++ ctx_enc 1 (enc_bits pub)).
+(* RFC 5480 SubjectPublicKeyInfo with id-ecPublicKey and namedCurve; RFC 5958 PrivateKeyInfo around [inner] *)
+Definition enc_spki_ec_named (curve : list N) (point : bytes) : bytes :=
+  enc_seq (enc_seq (enc_oid oid_ec_arcs ++ enc_oid curve) ++ enc_bits point).
+Definition enc_pkcs8_ec_named (curve : list N) (inner : bytes) : bytes :=
+  enc_seq (enc_int 0 ++ enc_seq (enc_oid oid_ec_arcs ++ enc_oid curve) ++ enc_octets inner).
